@@ -290,6 +290,10 @@ def real_terms(eng, c):
         for f, kind in c.fields['Main'].items():
             if kind == 'real':
                 ts.append(eng.sym_of_kind(kind, 'main.%s' % f).z)
+    if 'TimeThread' in c.fields:
+        for f, kind in c.fields['TimeThread'].items():
+            if kind == 'real':
+                ts.append(eng.sym_of_kind(kind, 'main.current_tt.%s' % f).z)
     return ts, ints
 
 
@@ -332,6 +336,25 @@ def extract_model(eng, c, case, m):
                 if kind in ('int', 'real', 'bool'):
                     fv[f] = model_value(m, eng.sym_of_kind(kind, '%s.%s' % (oid, f)).z)
             vals[pname] = {'__fields__': fv, '__class__': cls}
+    # ghost booleans/ints of parameters (names '<oid>.__x') and other ghosts
+    ghost = {}
+    for d in m.decls():
+        nm = d.name()
+        if '.__' in nm and d.arity() == 0:
+            oid, g = nm.split('.__', 1)
+            val = model_value(m, d())
+            if oid in vals and isinstance(vals[oid], dict):
+                vals[oid]['__fields__']['__' + g] = val
+        elif nm.endswith('.is_self') and d.arity() == 0:
+            ghost[nm] = model_value(m, d())
+    if ghost:
+        vals['@ghost'] = ghost
+    if 'TimeThread' in c.fields:
+        fv = {}
+        for f, kind in c.fields['TimeThread'].items():
+            if kind in ('int', 'real', 'bool'):
+                fv[f] = model_value(m, eng.sym_of_kind(kind, 'main.current_tt.%s' % f).z)
+        vals['@main.current_tt'] = fv
     # global singleton fields
     for gcls, oid in (('Main', 'main'),):
         if gcls in c.fields:
@@ -352,6 +375,49 @@ def py_value(x, kind):
     return x
 
 
+def _import_target(c):
+    if c.file.startswith('@lemmas/'):
+        mod = importlib.import_module('vf.contracts.lemmas.' + c.file[len('@lemmas/'):-3])
+    else:
+        mod = importlib.import_module(c.file[:-3].replace('/', '.'))
+    parts = c.qual.split('.')
+    obj = mod
+    for p in parts[:-1]:
+        obj = getattr(obj, p)
+    last = parts[-1]
+    if last.endswith('@setter'):
+        prop = obj.__dict__[last[:-7]]
+        func = prop.fset
+        unbound = True
+    else:
+        func = getattr(obj, last)
+        unbound = False
+    return mod, parts, func
+
+
+_NATIVE_INIT = {'done': False}
+
+
+def _build_obj(c, clsname, fields_model):
+    modpath = c.class_modules.get(clsname)
+    if modpath is None:
+        modpath = c.file
+    m = importlib.import_module(modpath[:-3].replace('/', '.'))
+    cls = getattr(m, clsname)
+    o = cls.__new__(cls)
+    ghosts = {}
+    for f, fv in (fields_model or {}).items():
+        if f.startswith('__'):
+            ghosts[f] = fv
+            continue
+        fk = c.fields.get(clsname, {}).get(f)
+        try:
+            object.__setattr__(o, f, py_value(fv, fk))
+        except Exception:
+            o.__dict__[f] = py_value(fv, fk)
+    return o, ghosts
+
+
 def native_check(c, case, model, clause_names):
     """Replay a counter-model on the real code (imported from REPO) and
     evaluate the failing clauses on the concrete pre/post state.
@@ -365,27 +431,28 @@ def native_check(c, case, model, clause_names):
         logging.disable(logging.CRITICAL)
         if c.native:
             return c.native(c, case, model, clause_names)
-        modname = c.file[:-3].replace('/', '.')
-        mod = importlib.import_module(modname)
-        obj = mod
-        parts = c.qual.split('.')
-        for p in parts:
-            obj = getattr(obj, p)
-        func = obj
+        needs_main = any(k in c.fields for k in ('Main', 'TimeThread'))
+        if needs_main and not _NATIVE_INIT['done']:
+            import sc3
+            sc3.init('nrt')
+            _NATIVE_INIT['done'] = True
+        mod, parts, func = _import_target(c)
         args = []
-        selfobj = None
+        objs = {}
         for pname, kind in case.items():
             mv = model.get(pname)
-            if kind == 'self':
-                cls = getattr(mod, parts[0])
-                selfobj = cls.__new__(cls)
-                for f, fv in (mv or {}).get('__fields__', {}).items():
-                    fk = c.fields[parts[0]].get(f)
+            if kind == 'self' or (isinstance(kind, str) and kind.startswith('ref:')):
+                clsname = parts[0] if kind == 'self' else kind[4:]
+                o, ghosts = _build_obj(c, clsname, (mv or {}).get('__fields__', {}))
+                if ghosts.get('__running') is False or ghosts.get('__mode', 0) == 1:
+                    return 'no-replay', 'model needs a real-time / stopped clock state'
+                if '__mode' in ghosts or '__running' in ghosts or hasattr(type(o), 'running'):
                     try:
-                        setattr(selfobj, f, py_value(fv, fk))
+                        o._pure_nrt = True
                     except Exception:
-                        selfobj.__dict__[f] = py_value(fv, fk)
-                args.append(selfobj)
+                        pass
+                objs[pname] = (o, clsname)
+                args.append(o)
             elif kind in ('int', 'real', 'bool'):
                 args.append(py_value(mv, kind))
             elif kind == 'none':
@@ -394,6 +461,23 @@ def native_check(c, case, model, clause_names):
                 continue
             else:
                 return 'no-replay', 'parameter %s of kind %s' % (pname, kind)
+        tt_pre = {}
+        if needs_main:
+            from sc3.base import main as _m
+            tt = _m.main.current_tt
+            for f, fv in (model.get('@main.current_tt') or {}).items():
+                tt_pre[f] = fv
+                if f == '_seconds':
+                    try:
+                        tt._seconds = float(fv)
+                    except AttributeError:
+                        tt._m_seconds = float(fv)
+            g = model.get('@ghost') or {}
+            if g.get('main.current_tt._clock.is_self') and objs:
+                try:
+                    tt._clock = list(objs.values())[0][0]
+                except Exception:
+                    pass
         exc = None
         result = None
         try:
@@ -403,36 +487,50 @@ def native_check(c, case, model, clause_names):
         # concrete context
         eng = Engine(REPO, c, S.REGISTRY, case)
         params = {}
+        i = 0
         for pname, kind in case.items():
             if kind == 'int':
-                params[pname] = vint(int(args[len(params)] if False else model[pname]))
+                params[pname] = vint(int(model[pname]))
             elif kind == 'real':
                 params[pname] = vreal(z3.RealVal(str(Fraction(float(model[pname])))))
             elif kind == 'bool':
                 params[pname] = vbool(bool(model[pname]))
             elif kind == 'self':
                 params[pname] = V('ref', cls=parts[0], oid=pname)
+            elif isinstance(kind, str) and kind.startswith('ref:'):
+                params[pname] = V('ref', cls=kind[4:], oid=pname)
             elif kind == 'none':
                 params[pname] = NONE
         eng.entry_params = params
         pre_objs, post_objs = {}, {}
-        if selfobj is not None:
-            sp = [p for p, k in case.items() if k == 'self'][0]
-            pre_objs[sp] = {}
-            post_objs[sp] = {}
-            for f, fk in c.fields[parts[0]].items():
+        for pname, (o, clsname) in objs.items():
+            pre_objs[pname] = {}
+            post_objs[pname] = {}
+            for f, fk in c.fields.get(clsname, {}).items():
                 if fk in ('int', 'real', 'bool'):
-                    pv = (model.get(sp) or {}).get('__fields__', {}).get(f, 0)
-                    pre_objs[sp][f] = conc(py_value(pv, fk), fk)
-                    if hasattr(selfobj, f):
-                        post_objs[sp][f] = conc(getattr(selfobj, f), fk)
+                    pv = (model.get(pname) or {}).get('__fields__', {}).get(f, 0)
+                    pre_objs[pname][f] = conc(py_value(pv, fk), fk)
+                    if hasattr(o, f):
+                        try:
+                            post_objs[pname][f] = conc(getattr(o, f), fk)
+                        except Exception:
+                            pass
+        if needs_main:
+            pre_objs['main'] = {'current_tt': V('ref', cls='TimeThread', oid='main.current_tt')}
+            post_objs['main'] = dict(pre_objs['main'])
+            pre_objs['main.current_tt'] = {f: conc(float(v), 'real') for f, v in tt_pre.items()
+                                           if isinstance(v, (int, float, Fraction))}
+            from sc3.base import main as _m
+            post_objs['main.current_tt'] = {'_seconds': conc(float(_m.main.current_tt._seconds), 'real')}
         resv = None
         if exc is None:
             resv = conc_auto(result)
         ctx = S.Ctx(eng, params, pre_objs, post_objs, result=resv,
                     exc=(V('exc', cls=type(exc).__name__) if exc else None),
                     concrete=True)
-        detail = {'args': [repr(a) if not isinstance(a, (int, float, bool, type(None))) else a for a in args],
+        detail = {'args': [a if isinstance(a, (int, float, bool, type(None))) else
+                           {k: v for k, v in getattr(a, '__dict__', {}).items()
+                            if isinstance(v, (int, float, bool))} or repr(a)[:80] for a in args],
                   'result': repr(result), 'exception': repr(exc) if exc else None}
         failed = []
         for name, cl in c.ensures:
@@ -440,7 +538,14 @@ def native_check(c, case, model, clause_names):
                 continue
             if exc is not None:
                 continue
-            f = cl(ctx)
+            try:
+                f = cl(ctx)
+            except Exception as e:
+                return 'no-replay', 'clause not evaluable on concrete state: %r' % (e,)
+            if isinstance(f, bool):
+                if not f:
+                    failed.append('ensures[%s]' % name)
+                continue
             s = z3.Solver()
             s.set('timeout', 5000)
             s.add(f)
@@ -456,6 +561,12 @@ def native_check(c, case, model, clause_names):
                 s.add(cond(ctx))
                 if s.check() == z3.sat:
                     failed.append('raises-iff[%s]' % ecls)
+            if 'raises-only-if[%s]' % ecls in clause_names and exc is not None \
+                    and type(exc).__name__ == ecls and cond is not None:
+                s = z3.Solver()
+                s.add(cond(ctx))
+                if s.check() == z3.unsat:
+                    failed.append('raises-only-if[%s]' % ecls)
         detail['failed_clauses'] = failed
         return ('confirmed' if failed else 'refuted'), detail
     except Exception:
